@@ -403,17 +403,16 @@ Proof.
       - lia. }
     assert (HP : Pexpr (Bin o l r)).
     { intros R p m rest K N Hok Hr Hf HK f Hfuel. cbn [ok] in Hok. cbn [theta] in Hf. cbn [after] in HK.
-      fold (gpos p) in Hok.
       repeat (apply andb_true_iff in Hok as [Hok ?]).
       apply Nat.leb_le in Hok. apply Nat.ltb_lt in H1. apply Nat.leb_le in H0.
       rewrite wr_bin. cbn [need] in Hfuel. destruct (bin_paren R o p (Bin o l r)); cbn [tparens].
       - destruct f as [|f]; [lia|]. cbn [app]. rewrite pexpr_prim by exact I.
         destruct f as [|f]; [lia|]. cbn [pprim]. rewrite <- app_assoc. cbn [app].
-        rewrite (Hbody R (gpos p) 0 (TRP :: rest) (Some (Bin o l r, TRP :: rest)) 1);
+        rewrite (Hbody R (gleft R p o) 0 (TRP :: rest) (Some (Bin o l r, TRP :: rest)) 1);
           try assumption; try exact I; try lia.
         + apply HK. lia.
         + intros f0 Hf0. apply ploop_stop; [exact I | exact Hf0].
-      - eapply (Hbody R (gpos p) m rest K N); try eassumption. lia. }
+      - eapply (Hbody R (gleft R p o) m rest K N); try eassumption. lia. }
     split; [exact HP|]. split; [apply Pitem_plain; [exact HP | reflexivity]|].
     intros R rest f H. discriminate H.
 Qed.
@@ -467,7 +466,7 @@ Proof.
     + cbn [length]. lia.
   - rewrite wr_un. specialize (IHe (PUn u)). cbn [need].
     destruct (un_paren R u p); cbn [tparens length]; rewrite ?app_length; cbn [length]; lia.
-  - rewrite wr_bin. specialize (IHl (PBinL o r (gpos p))). specialize (IHr (PBinR o)). cbn [need].
+  - rewrite wr_bin. specialize (IHl (PBinL o r (gleft R p o))). specialize (IHr (PBinR o)). cbn [need].
     destruct (bin_paren R o p (Bin o l r)); cbn [tparens length]; rewrite ?app_length; cbn [length];
       rewrite ?app_length; cbn [length]; lia.
 Qed.
